@@ -214,3 +214,94 @@ def _all_memoised(tree) -> List[str]:
                 visit(n.body, prefix + n.name + ".")
     visit(tree.body, "")
     return out
+
+
+# ---------------------------------------------------------------------------------------------------
+# hand-rolled caches: the key must name everything the remembered value depends on
+_CACHE_EXAMPLE = '''
+class U:
+    def build(self, method, n_steps, control=None):
+        key = (method, n_steps)
+        if key in self._circuits:
+            return self._circuits[key]
+        self._circuits[key] = make(method, n_steps, control=control)
+        return self._circuits[key]
+    def fine(self, method, n_steps):
+        key = (method, n_steps)
+        if key not in self._c:
+            self._c[key] = make(method, n_steps)
+        return self._c[key]
+'''
+
+
+def cache_key_findings(tree: ast.AST):
+    """(function node, qualname, reason): functions that keep results in a container under a key built from some of their parameters while the
+    stored expression also depends on other parameters - a later call that differs only in those gets the value computed for the first"""
+    out = []
+
+    def visit(body, prefix):
+        for fn in body:
+            if isinstance(fn, ast.ClassDef):
+                visit(fn.body, prefix + fn.name + ".")
+                continue
+            if not isinstance(fn, (ast.FunctionDef, ast.AsyncFunctionDef)):
+                continue
+            params = {a.arg for a in fn.args.posonlyargs + fn.args.args + fn.args.kwonlyargs} - {"self", "cls"}
+            if fn.args.vararg:
+                params.add(fn.args.vararg.arg)
+            if fn.args.kwarg:
+                params.add(fn.args.kwarg.arg)
+            # local definitions, to expand a key variable into the parameters it is made of
+            defs = {}
+            for n in ast.walk(fn):
+                if isinstance(n, ast.Assign) and len(n.targets) == 1 and isinstance(n.targets[0], ast.Name):
+                    defs.setdefault(n.targets[0].id, []).append(n.value)
+
+            def names_of(e, depth=0):
+                got = set()
+                for x in ast.walk(e):
+                    if isinstance(x, ast.Name):
+                        if x.id in params:
+                            got.add(x.id)
+                        elif x.id in defs and depth < 3:
+                            for d in defs[x.id]:
+                                got |= names_of(d, depth + 1)
+                return got
+            # membership tests on a container: `key in C` / `key not in C`
+            tested = {}
+            for n in ast.walk(fn):
+                if isinstance(n, ast.Compare) and len(n.ops) == 1 and isinstance(n.ops[0], (ast.In, ast.NotIn)):
+                    tested[norm(n.comparators[0])] = n.left
+            for n in ast.walk(fn):
+                if isinstance(n, ast.Assign) and isinstance(n.targets[0], ast.Subscript) and norm(n.targets[0].value) in tested:
+                    cont = norm(n.targets[0].value)
+                    key_params = names_of(n.targets[0].slice)
+                    if not key_params:
+                        continue
+                    val_params = names_of(n.value)
+                    missing = sorted(val_params - key_params)
+                    # the value must also be *returned from the container* somewhere (otherwise it is not a cache)
+                    returned = any(isinstance(r, ast.Return) and r.value is not None and norm(r.value).startswith(cont + "[") for r in ast.walk(fn))
+                    if missing and returned:
+                        out.append((fn, prefix + fn.name, f"results are remembered in {cont} under a key made of {sorted(key_params)}, but the remembered value also depends on "
+                                                          f"{missing}: a later call that differs only in {missing} receives the value computed for the first one"))
+                        break
+            visit(fn.body, prefix + fn.name + ".")
+    visit(tree.body, "")
+    return out
+
+
+def check_cache_keys(idx: Index, rep, relpaths: Iterable[str], rule: str = "K1.cache-key"):
+    ex = cache_key_findings(ast.parse(_CACHE_EXAMPLE))
+    if [q for _, q, _ in ex] != ["U.build"]:
+        raise AnalysisError(f"cache-key rule self-check failed: built-in example reports {[q for _, q, _ in ex]}")
+    for rel in relpaths:
+        try:
+            m = idx.module_by_relpath(rel)
+        except Exception:
+            continue
+        hits = cache_key_findings(m.tree)
+        for node, qual, why in hits:
+            rep.violation(rule, (m.relpath, qual), node, text=f"{qual} keeps results under an incomplete key", what="a remembered result is looked up by everything it depends on", reason=why)
+        rep.ok(rule, (m.relpath, "<module>"), None, text=f"{rel}: scanned for hand-rolled result caches ({len(hits)} with an incomplete key)",
+               what="a remembered result is looked up by everything it depends on", nontrivial=False)
